@@ -10,6 +10,11 @@ CLAIMED = {
     note="Trusted: Lean kernel + propext/Classical.choice/Quot.sound; hand-written model (Model/XXH64, Partition, Filter) validated only by the correspondence streams (generator quality bounds it); listing semantics of libtest assumed; filterset truth values and aho-corasick are inputs.",
     technique="Lean 4 proof (induction over candidate lists) + differential correspondence of model vs real code",
     design="§5 C13"),
+ "C04": dict(
+    text="Lean 4 theorems: filter_match equals the documented stage composition with first-rejecting-stage reasons (filter_match_spec, selected_iff), name_match after resolve equals the documented pattern rule (name_match_spec, for every pattern set the builder API can produce), and the binary-level shortcut is sound (binary_shortcut_sound, given Kleene consistency). Tied to the code by in-process differential checking of TestFilterBuilder/TestFilter/filter_binary_match/process_output against the model, plus a shortcut-soundness monitor on the real code.",
+    note="Trusted: Lean kernel + standard axioms; hand-written model (Model/NameFilter, Filter) validated by the correspondence; aho-corasick modelled as infix search; filterset truth values are inputs (C05). merge_test_binary_args is modelled but only corresponded through the CLI stream when the end-to-end engine is available.",
+    technique="Lean 4 proof (case analysis / induction) + differential correspondence of model vs real code",
+    design="§5 C04"),
 }
 NOT_YET = "not yet claimed: model/theorems for this property are still being built (see DESIGN.md §5); no other technique is substituted"
 
